@@ -22,7 +22,7 @@ func init() {
 			"Roland checksum rule: (sum of address + payload/size bytes + checksum) mod 128 == 0",
 			"ids and addresses are 7-bit values (sysex data bytes)",
 		},
-		Require: []string{"dataset_values", "request_values", "corruptions_rejected", "checksum_nonzero", "locate_values", "command_values", "held_across_later_build", "reparse_after_modification", "reused_receivers", "dump_packets_built", "appends_to_parsed_payloads", "kept_values_checked_after_gc"},
+		Require: []string{"dataset_values", "request_values", "corruptions_rejected", "checksum_nonzero", "locate_values", "command_values", "held_across_later_build", "reparse_after_modification", "reused_receivers", "dump_packets_built", "appends_to_parsed_payloads", "kept_values_checked_after_gc", "mmc_messages_held_across_later_builds"},
 		Run:     runC18,
 	})
 }
@@ -361,6 +361,54 @@ func runC18(c *mon.Ctx) {
 			c.DistinctBytes(bt)
 		}
 		c.Eval(499)
+	})
+
+	// a cue list: many machine-control messages built first, then sent (parsed) later, some of them extended by the
+	// caller with append in between: every built message still parses back to the value it was built from
+	c.Each("mmc-batch", c.N(40, 2000), func(i int64, r *mon.Rand) {
+		n := 20 + r.Intn(400)
+		type item struct {
+			cmd  *mmc.Message
+			loc  *mmc.GoTo
+			bt   []byte
+			keep []byte
+		}
+		items := make([]item, n)
+		for k := range items {
+			if r.P(2, 3) {
+				m := mmc.Message{DeviceID: byte(1 + r.Intn(127)), Command: mmc.Command(1 + r.Intn(0x3F))}
+				items[k] = item{cmd: &m, bt: m.SysEx()}
+			} else {
+				g := mmc.GoTo{DeviceID: r.Byte() & 0x7F, Hour: r.Byte() & 0x7F, Minute: r.Byte() & 0x7F, Second: r.Byte() & 0x7F, Frame: r.Byte() & 0x7F, SubFrame: r.Byte() & 0x7F}
+				items[k] = item{loc: &g, bt: g.SysEx()}
+			}
+			items[k].keep = append([]byte(nil), items[k].bt...)
+		}
+		for _, k := range r.Perm(n)[:n/3] {
+			_ = append(items[k].bt, 0xF0, 0x7F, 0x7F, 0x06, 0x01, 0xF7) // the next message of the cue appended by the caller
+		}
+		c.Eval(1)
+		for k, it := range items {
+			c.Count("mmc_messages_held_across_later_builds", 1)
+			if !bytes.Equal(it.bt, it.keep) {
+				c.Violation("mmc-built-bytes-changed", fmt.Sprintf("message %d of %d built in a row changed after later messages were built / other built messages were appended to: built as % X, now % X", k, n, it.keep, it.bt), nil, mon.Hex(it.keep), mon.Hex(it.bt))
+				break
+			}
+			if it.cmd != nil {
+				var p mmc.Message
+				if err := p.Parse(it.bt); err != nil || p.DeviceID != it.cmd.DeviceID || p.Command != it.cmd.Command || p.IsResponse || len(p.Data) != 0 {
+					c.Violation("mmc-batch-parse", fmt.Sprintf("message %d of %d built in a row: Parse(% X) = %+v, %v; built from %+v", k, n, it.bt, p, err, *it.cmd), nil, fmt.Sprintf("%+v", *it.cmd), fmt.Sprintf("%+v %v", p, err))
+					break
+				}
+			} else {
+				var p mmc.GoTo
+				if err := p.Parse(it.bt); err != nil || p != *it.loc {
+					c.Violation("mmc-batch-parse", fmt.Sprintf("locate message %d of %d built in a row: Parse(% X) = %+v, %v; built from %+v", k, n, it.bt, p, err, *it.loc), nil, fmt.Sprintf("%+v", *it.loc), fmt.Sprintf("%+v %v", p, err))
+					break
+				}
+			}
+		}
+		c.DistinctBytes([]byte(fmt.Sprint("mmcbatch", i, n)))
 	})
 
 	// plain commands: exhaustive
